@@ -7,6 +7,6 @@ done
 if [ -z "$VF_GOROOT" ]; then echo "verif: no usable Go toolchain found" >&2; exit 2; fi
 export VF_GO="$VF_GOROOT/bin/go"
 export PATH="$VF_GOROOT/bin:$PATH"
-export VF_ROOT=/verif
-export VF_WORK=/verif/.work
+export VF_ROOT="${VF_ROOT:-$(cd "$(dirname "${BASH_SOURCE[0]}")" && pwd)}"
+export VF_WORK="$VF_ROOT/.work"
 mkdir -p "$VF_WORK"
